@@ -443,4 +443,174 @@ theorem azzen_roundtrip_aux (α ζ r : ℝ) (m : Bool) (hr : 0 < r) (hζ0 : 0 < 
     simp only [if_true]
     refine Prod.ext rfl (Prod.ext rfl (Prod.ext rfl ?_)); simp only; ring
 
+
+/-! ### Jacobians of the model functions themselves -/
+
+/-- `Angle`: the four partial derivatives of `angleFwd` in (θ, r) and `log|det J| = log_j + log|s|` -/
+theorem angleFwd_jacobian (s θ r : ℝ) (hs : s ≠ 0) (hr : 0 < r) :
+    ∃ a b c d : ℝ,
+      HasDerivAt (fun t => (angleFwd s t r).1) a θ ∧ HasDerivAt (fun ρ => (angleFwd s θ ρ).1) b r ∧
+      HasDerivAt (fun t => (angleFwd s t r).2.1) c θ ∧ HasDerivAt (fun ρ => (angleFwd s θ ρ).2.1) d r ∧
+      log |a * d - b * c| = (angleFwd s θ r).2.2 + log |s| := by
+  have hlin : HasDerivAt (fun t => t * s) s θ := by simpa using (hasDerivAt_id θ).mul_const s
+  refine ⟨r * (-sin (θ * s) * s), cos (θ * s), r * (cos (θ * s) * s), sin (θ * s),
+    (hlin.cos).const_mul r, ?_, (hlin.sin).const_mul r, ?_, ?_⟩
+  · have := (hasDerivAt_id r).mul_const (cos (θ * s))
+    simp only [id, one_mul] at this; exact this
+  · have := (hasDerivAt_id r).mul_const (sin (θ * s))
+    simp only [id, one_mul] at this; exact this
+  · have h : r * (-sin (θ * s) * s) * sin (θ * s) - cos (θ * s) * (r * (cos (θ * s) * s))
+        = -(s * r) * (cos (θ * s) ^ 2 + sin (θ * s) ^ 2) := by ring
+    rw [h, cos_sq_add_sin_sq, mul_one, abs_neg, abs_mul, abs_of_pos hr,
+      log_mul (abs_ne_zero.mpr hs) (ne_of_gt hr)]
+    simp only [angleFwd]; ring
+
+/-- `ToCartesian`: partial derivatives of `toCartFwd` in (x, r) and `log|det J| = log_j + log π` -/
+theorem toCartFwd_jacobian (p0 p1 x r : ℝ) (neg : Bool) (hp : p0 < p1) (hr : 0 < r) :
+    ∃ a b c d : ℝ,
+      HasDerivAt (fun t => (toCartFwd p0 p1 neg t r).1) a x ∧ HasDerivAt (fun ρ => (toCartFwd p0 p1 neg x ρ).1) b r ∧
+      HasDerivAt (fun t => (toCartFwd p0 p1 neg t r).2.1) c x ∧ HasDerivAt (fun ρ => (toCartFwd p0 p1 neg x ρ).2.1) d r ∧
+      log |a * d - b * c| = (toCartFwd p0 p1 neg x r).2.2 + log π := by
+  have hw : 0 < p1 - p0 := sub_pos.mpr hp
+  have hpi := pi_pos
+  set k : ℝ := (if neg then -1 else 1) * π / (p1 - p0) with hk
+  set A : ℝ → ℝ := fun t => (if neg then -((t - p0) / (p1 - p0)) else (t - p0) / (p1 - p0)) * π with hA
+  have hlin : HasDerivAt A k x := by
+    have h1 : HasDerivAt (fun t : ℝ => (t - p0) / (p1 - p0)) (1 / (p1 - p0)) x := by
+      simpa using ((hasDerivAt_id x).sub_const p0).div_const (p1 - p0)
+    rw [hk]
+    cases neg
+    · exact (h1.mul_const π).congr_deriv (by simp only [Bool.false_eq_true, if_false]; ring)
+    · exact ((h1.neg).mul_const π).congr_deriv (by simp only [if_true]; ring)
+  refine ⟨r * (-sin (A x) * k), cos (A x), r * (cos (A x) * k), sin (A x),
+    (hlin.cos).const_mul r, ?_, (hlin.sin).const_mul r, ?_, ?_⟩
+  · have := (hasDerivAt_id r).mul_const (cos (A x))
+    simp only [id, one_mul] at this; exact this
+  · have := (hasDerivAt_id r).mul_const (sin (A x))
+    simp only [id, one_mul] at this; exact this
+  · have h : r * (-sin (A x) * k) * sin (A x) - cos (A x) * (r * (cos (A x) * k))
+        = -(k * r) * (cos (A x) ^ 2 + sin (A x) ^ 2) := by ring
+    have hkabs : |k| = π / (p1 - p0) := by
+      rw [hk, abs_div, abs_mul, abs_of_pos hpi, abs_of_pos hw]
+      cases neg <;> simp
+    rw [h, cos_sq_add_sin_sq, mul_one, abs_neg, abs_mul, abs_of_pos hr, hkabs,
+      log_mul (ne_of_gt (div_pos hpi hw)) (ne_of_gt hr), log_div (ne_of_gt hpi) (ne_of_gt hw)]
+    simp only [toCartFwd]; ring
+
+/-- `AnglePair` ra-dec: the nine partial derivatives of `radecFwd` in (α, δ, r) and `log|det J| = log_j` exactly -/
+theorem radecFwd_jacobian (α δ r : ℝ) (hr : 0 < r) (hc : 0 < cos δ) :
+    ∃ a b c d e f g h i : ℝ,
+      HasDerivAt (fun t => (radecFwd t δ r).1) a α ∧ HasDerivAt (fun t => (radecFwd α t r).1) b δ ∧
+      HasDerivAt (fun ρ => (radecFwd α δ ρ).1) c r ∧
+      HasDerivAt (fun t => (radecFwd t δ r).2.1) d α ∧ HasDerivAt (fun t => (radecFwd α t r).2.1) e δ ∧
+      HasDerivAt (fun ρ => (radecFwd α δ ρ).2.1) f r ∧
+      HasDerivAt (fun t => (radecFwd t δ r).2.2.1) g α ∧ HasDerivAt (fun t => (radecFwd α t r).2.2.1) h δ ∧
+      HasDerivAt (fun ρ => (radecFwd α δ ρ).2.2.1) i r ∧
+      log |det3 a b c d e f g h i| = (radecFwd α δ r).2.2.2 := by
+  obtain ⟨h1, h2, h3, h4, h5, h6, h7, h8, h9⟩ := anglePair_radec_partials r α δ
+  refine ⟨_, _, _, _, _, _, _, _, _, h1, h2, h3, h4, h5, h6, h7, h8, h9, ?_⟩
+  rw [anglePair_radec_det, abs_of_pos (mul_pos (pow_pos hr 2) hc),
+    log_mul (ne_of_gt (pow_pos hr 2)) (ne_of_gt hc), log_pow]
+  simp only [radecFwd]; push_cast; ring
+
+/-- `AnglePair` az-zen: the nine partial derivatives of `azzenFwd` in (α, ζ, r) and `log|det J| = log_j` exactly -/
+theorem azzenFwd_jacobian (α ζ r : ℝ) (hr : 0 < r) (hs : 0 < sin ζ) :
+    ∃ a b c d e f g h i : ℝ,
+      HasDerivAt (fun t => (azzenFwd t ζ r).1) a α ∧ HasDerivAt (fun t => (azzenFwd α t r).1) b ζ ∧
+      HasDerivAt (fun ρ => (azzenFwd α ζ ρ).1) c r ∧
+      HasDerivAt (fun t => (azzenFwd t ζ r).2.1) d α ∧ HasDerivAt (fun t => (azzenFwd α t r).2.1) e ζ ∧
+      HasDerivAt (fun ρ => (azzenFwd α ζ ρ).2.1) f r ∧
+      HasDerivAt (fun t => (azzenFwd t ζ r).2.2.1) g α ∧ HasDerivAt (fun t => (azzenFwd α t r).2.2.1) h ζ ∧
+      HasDerivAt (fun ρ => (azzenFwd α ζ ρ).2.2.1) i r ∧
+      log |det3 a b c d e f g h i| = (azzenFwd α ζ r).2.2.2 := by
+  obtain ⟨h1, h2, h3, h4, h5, h6, h7, h8, h9⟩ := anglePair_azzen_partials r α ζ
+  refine ⟨_, _, _, _, _, _, _, _, _, h1, h2, h3, h4, h5, h6, h7, h8, h9, ?_⟩
+  rw [anglePair_azzen_det, abs_neg, abs_of_pos (mul_pos (pow_pos hr 2) hs),
+    log_mul (ne_of_gt (pow_pos hr 2)) (ne_of_gt hs), log_pow]
+  simp only [azzenFwd]; push_cast; ring
+
+/-! ### the registered `logit` and `log-rescale` objects end to end -/
+
+/-- state of `get_reparameterisation("logit")` / `("log-rescale")` for one parameter: rescale bounds [0, 1],
+`update_bounds=False`, named post-rescaling; `off` = the `offset` option -/
+noncomputable def namedPostObject (h : Hook ℝ) (p0 p1 : ℝ) (off : Bool) : Rtb ℝ :=
+  rtbMk p0 p1 (some (0, 1)) none false off false none (some h) true false
+
+theorem namedPostObject_core (h : Hook ℝ) (p0 p1 x : ℝ) (off neg : Bool) (hp : p0 < p1) :
+    (rtbCore (namedPostObject h p0 p1 off) neg x).1 = (x - p0) / (p1 - p0) := by
+  have hw : p1 - p0 ≠ 0 := ne_of_gt (sub_pos.mpr hp)
+  have hpt : ptp (0 : ℝ) 1 = 1 := by rw [ptp_eq]; norm_num
+  show ptp (0 : ℝ) 1 * ((x - (if off = true then p0 + ptp p0 p1 / two else 0)
+        - (p0 - (if off = true then p0 + ptp p0 p1 / two else 0)))
+      / ((p1 - (if off = true then p0 + ptp p0 p1 / two else 0))
+        - (p0 - (if off = true then p0 + ptp p0 p1 / two else 0)))) + 0 = (x - p0) / (p1 - p0)
+  generalize (if off = true then p0 + ptp p0 p1 / two else 0) = o
+  rw [hpt, show x - o - (p0 - o) = x - p0 by ring, show p1 - o - (p0 - o) = p1 - p0 by ring]
+  ring
+
+theorem namedPostObject_facts (h : Hook ℝ) (p0 p1 : ℝ) (off : Bool) (hp : p0 < p1) :
+    let r := namedPostObject h p0 p1 off
+    r.b0 < r.b1 ∧ r.FactorOK ∧ r.pre = none ∧ r.post = some h ∧ r.inversion = none := by
+  refine ⟨?_, ?_, rfl, rfl, rfl⟩
+  · cases off <;> simp [namedPostObject, rtbMk] <;> linarith
+  · intro _; simp [namedPostObject, rtbMk]
+
+/-- the registered `logit` object: on the open prior interval the round trip holds, both Jacobian factors are positive
+and reciprocal, and the forward map is differentiable with |derivative| = reported factor -/
+theorem logitObject_lawful (p0 p1 x : ℝ) (off neg : Bool) (hp : p0 < p1) (h0 : p0 < x) (h1 : x < p1) :
+    let r := namedPostObject logitHook p0 p1 off
+    (ScalarLawfulAt (rtbFwd r neg) (rtbInv r) x ∧ 0 < (rtbFwd r neg x).2 ∧ 0 < (rtbInv r (rtbFwd r neg x).1).2) ∧
+    ∃ d, HasDerivAt (fun t => (rtbFwd r neg t).1) d x ∧ |d| = (rtbFwd r neg x).2 := by
+  intro r
+  obtain ⟨hb, hf, hpre, hpost, hinv⟩ := namedPostObject_facts logitHook p0 p1 off hp
+  have hw : 0 < p1 - p0 := sub_pos.mpr hp
+  have hpreF : ∀ t, r.preF t = (t, 1) := by intro t; unfold Rtb.preF; rw [hpre]
+  have hz : (rtbCore r neg (r.preF x).1).1 = (x - p0) / (p1 - p0) := by
+    rw [hpreF]; exact namedPostObject_core logitHook p0 p1 x off neg hp
+  have hz0 : 0 < (x - p0) / (p1 - p0) := div_pos (by linarith) hw
+  have hz1 : (x - p0) / (p1 - p0) < 1 := (div_lt_one hw).mpr (by linarith)
+  have hpostF : r.postF = logitHook.fwd := by unfold Rtb.postF; rw [hpost]
+  have hpostI : r.postI = logitHook.inv := by unfold Rtb.postI; rw [hpost]
+  have hpreI : ∀ t, r.preI t = (t, 1) := by intro t; unfold Rtb.preI; rw [hpre]
+  have hL := rtb_lawful_pos r neg x hb hf (fun h => by
+      exfalso; rcases h with ⟨hs, _, _⟩; rw [hinv] at hs; simp at hs)
+    ⟨by unfold ScalarLawfulAt; simp [hpreF, hpreI], by
+      rw [hz, hpostF, hpostI]; exact logitHook_lawful _ hz0 hz1⟩
+    ⟨by rw [hpreF]; exact one_pos, by rw [hpostF]; simp only [logitHook]; exact exp_pos _⟩
+  refine ⟨hL, ?_⟩
+  obtain ⟨d, hd, habs⟩ := rtbFwd_hasDerivAt r neg x hb
+    (by
+      have : (fun t => (r.preF t).1) = fun t => t := by funext t; rw [hpreF]
+      rw [this, hpreF]; exact hasDerivAt_id x)
+    (by rw [hz, hpostF]; exact logit_hasDerivAt _ hz0 hz1)
+  exact ⟨d, hd, by rw [habs, abs_of_pos hL.2.1]⟩
+
+/-- the registered `log-rescale` object: the same on `(p0, p1]` — the upper bound, where the map is finite, included -/
+theorem logRescaleObject_lawful (p0 p1 x : ℝ) (off neg : Bool) (hp : p0 < p1) (h0 : p0 < x) :
+    let r := namedPostObject logHook p0 p1 off
+    (ScalarLawfulAt (rtbFwd r neg) (rtbInv r) x ∧ 0 < (rtbFwd r neg x).2 ∧ 0 < (rtbInv r (rtbFwd r neg x).1).2) ∧
+    ∃ d, HasDerivAt (fun t => (rtbFwd r neg t).1) d x ∧ |d| = (rtbFwd r neg x).2 := by
+  intro r
+  obtain ⟨hb, hf, hpre, hpost, hinv⟩ := namedPostObject_facts logHook p0 p1 off hp
+  have hw : 0 < p1 - p0 := sub_pos.mpr hp
+  have hpreF : ∀ t, r.preF t = (t, 1) := by intro t; unfold Rtb.preF; rw [hpre]
+  have hz : (rtbCore r neg (r.preF x).1).1 = (x - p0) / (p1 - p0) := by
+    rw [hpreF]; exact namedPostObject_core logHook p0 p1 x off neg hp
+  have hz0 : 0 < (x - p0) / (p1 - p0) := div_pos (by linarith) hw
+  have hpostF : r.postF = logHook.fwd := by unfold Rtb.postF; rw [hpost]
+  have hpostI : r.postI = logHook.inv := by unfold Rtb.postI; rw [hpost]
+  have hpreI : ∀ t, r.preI t = (t, 1) := by intro t; unfold Rtb.preI; rw [hpre]
+  have hL := rtb_lawful_pos r neg x hb hf (fun h => by
+      exfalso; rcases h with ⟨hs, _, _⟩; rw [hinv] at hs; simp at hs)
+    ⟨by unfold ScalarLawfulAt; simp [hpreF, hpreI], by
+      rw [hz, hpostF, hpostI]; exact logHook_lawful _ hz0⟩
+    ⟨by rw [hpreF]; exact one_pos, by rw [hpostF]; simp only [logHook]; exact exp_pos _⟩
+  refine ⟨hL, ?_⟩
+  obtain ⟨d, hd, habs⟩ := rtbFwd_hasDerivAt r neg x hb
+    (by
+      have : (fun t => (r.preF t).1) = fun t => t := by funext t; rw [hpreF]
+      rw [this, hpreF]; exact hasDerivAt_id x)
+    (by rw [hz, hpostF]; exact log_hasDerivAt _ hz0)
+  exact ⟨d, hd, by rw [habs, abs_of_pos hL.2.1]⟩
+
 end NessaiVerif.Reparam
